@@ -2,34 +2,59 @@
 """Re-runs the property's quick check against every seeded change kept under
 /verif/seeded, each applied to a scratch copy of /repo's working tree (outside
 /repo and /verif, removed afterwards), and records in each meta.json whether the
-present checks catch it.  usage: seed_recheck.py [id...]"""
-import json, os, subprocess, sys, glob, tempfile, shutil
+present checks catch it.  SEED_JOBS workers (default 5), each with its own copy.
+usage: seed_recheck.py [id...]"""
+import json, os, subprocess, sys, glob, tempfile, shutil, threading, queue
 ids = sys.argv[1:] or sorted(os.path.basename(d) for d in glob.glob("/verif/seeded/*-s*"))
 env = dict(os.environ, GOFLAGS="-mod=mod", GOPROXY="off", GOTOOLCHAIN="auto")
 env.pop("GOSUMDB", None)
 scratch = tempfile.mkdtemp(prefix="vcgen-seeds-")
-try:
-    repo = os.path.join(scratch, "repo")
+q = queue.Queue()
+for sid in ids:
+    q.put(sid)
+lock = threading.Lock()
+jobs = max(1, min(int(os.environ.get("SEED_JOBS", "5")), len(ids)))
+
+
+def worker(k):
+    repo = os.path.join(scratch, f"repo{k}")
+    work = os.path.join(scratch, f"work{k}")
     subprocess.check_call(["rsync", "-a", "--exclude", ".git", "--exclude", "testdata", "/repo/", repo + "/"])
     subprocess.check_call("git init -q && git add -A && git -c user.email=x@x -c user.name=x commit -qm base", shell=True, cwd=repo)
-    for sid in ids:
+    while True:
+        try:
+            sid = q.get_nowait()
+        except queue.Empty:
+            return
         d = f"/verif/seeded/{sid}"
         m = json.load(open(d + "/meta.json"))
         prop = m["property"]
         a = subprocess.run(f"git apply {d}/patch.diff", shell=True, cwd=repo, capture_output=True, text=True)
         if a.returncode != 0:
-            print(sid, "patch does not apply:", a.stderr.strip()); continue
+            with lock:
+                print(sid, "patch does not apply:", a.stderr.strip(), flush=True)
+            continue
         try:
-            p = subprocess.run(["/verif/bin/vcgen", "check", "-repo", repo, "-verif", "/verif", "-work", os.path.join(scratch, "work"), "-evidence=false", "-property", prop],
+            p = subprocess.run(["/verif/bin/vcgen", "check", "-repo", repo, "-verif", "/verif", "-work", work, "-evidence=false", "-property", prop],
                                capture_output=True, text=True, env=env, timeout=3600)
         finally:
             subprocess.run("git checkout -q . && git clean -fdq", shell=True, cwd=repo, check=True)
         viol = [l for l in p.stdout.splitlines() if l.startswith("VIOLATION")]
-        m["caught_first_run"] = m.get("caught_first_run", m.get("caught", False))
-        m["caught_now"] = p.returncode == 1 and bool(viol)
-        m["violations_now"] = [l.replace(scratch, "<scratch>")[:400] for l in viol]
-        m["recheck_exit"] = p.returncode
-        json.dump(m, open(d + "/meta.json", "w"), indent=1)
-        print(sid, "first_run=%s now=%s" % (m["caught_first_run"], m["caught_now"]), (viol[0].split("obligation=")[-1][:120] if viol else p.stdout[-200:]), flush=True)
+        with lock:
+            m = json.load(open(d + "/meta.json"))
+            m["caught_first_run"] = m.get("caught_first_run", m.get("caught", False))
+            m["caught_now"] = p.returncode == 1 and bool(viol)
+            m["violations_now"] = [l.replace(scratch, "<scratch>").replace(f"/work{k}/", "/work/")[:400] for l in viol]
+            m["recheck_exit"] = p.returncode
+            json.dump(m, open(d + "/meta.json", "w"), indent=1)
+            print(sid, "first_run=%s now=%s" % (m["caught_first_run"], m["caught_now"]), (viol[0].split("obligation=")[-1][:120] if viol else p.stdout[-200:]), flush=True)
+
+
+try:
+    ts = [threading.Thread(target=worker, args=(k,)) for k in range(jobs)]
+    for t in ts:
+        t.start()
+    for t in ts:
+        t.join()
 finally:
     shutil.rmtree(scratch, ignore_errors=True)
